@@ -101,6 +101,9 @@ def check_selector(c, name, sel, table, default_cols, rng, nranges):
     n = len(next(iter(table.values())))
     allcols = list(table)
     colsets = [None] + [[x] for x in allcols[:2]] + [allcols[::-1]] + [x for x in allcols]
+    dupable = [x for x in allcols if x != "chrom"]
+    if len(dupable) >= 2:
+        colsets.append([dupable[0], dupable[1], dupable[0]])          # a column requested twice comes back twice
     for (key, a, b, kind) in ranges(rng, n, nranges):
         cs = colsets[int(rng.integers(len(colsets)))]
         s = sel if cs is None else sel[cs]
@@ -115,8 +118,10 @@ def check_selector(c, name, sel, table, default_cols, rng, nranges):
             cols = default_cols if cs is None else cs
             ok = isinstance(got, pd.DataFrame) and list(got.index) == want_idx and list(got.columns) == cols
             if ok:
-                for col in cols:
-                    ok = ok and col_eq(got[col], table[col][a:b])
+                for k_, col in enumerate(cols):
+                    ok = ok and col_eq(got.iloc[:, k_], table[col][a:b])
+            if len(set(cols)) < len(cols):
+                c.feature("cols:list-with-repeated-name")
         c.ctx.oracle_evals += 1
         if not ok:
             enc = c.desc.get("encoding")
